@@ -9,10 +9,11 @@
      a success (Choice, Optional, Repeat, the predicates, parse_trivia) use a scratch list
      and clear or abandon it;
    - a non-silent rule's closure pops the pending tag before it looks at `matched`;
-   - Repeat parses the trivia after an iteration OUTSIDE the next checkpoint and rewinds
-     `state.pos` to the saved `trivia_pos` when the next iteration fails;
-   - built-in rules other than EOI are inlined without a rule frame (only the names recorded in
-     the failure tracker depend on that; the model keeps the frame, names are not compared).
+   - Repeat parses the trivia between iterations inside the next iteration's checkpoint, as the
+     interpreter does (since fix 6cea53c; before, it ran outside any checkpoint and only
+     `state.pos` was rewound — the defect this model brought to light);
+   - built-in rules other than EOI are emitted in place, without a rule frame (`inl`): only the
+     names recorded in the failure tracker depend on that (GenProof.gparse_inl).
    A result `GOk m s ps` carries what was appended to pairs_var whether or not m holds. *)
 From Coq Require Import List NArith ZArith Bool Arith.
 Import ListNotations.
